@@ -449,7 +449,9 @@ class Gen:
             nm = "p%d" % i
             if p["keyword_params"] and self.chance(0.08):
                 kw = self.pick(KEYWORD_PARAMS)
-                if kw not in names:
+                # two parameters of one method never differ only by underscores: backends escape `default` as `default_` and re-case
+                # `new_` to `new`, so such siblings collide in the generated code (recorded as a C09 finding through a directed probe)
+                if kw.replace("_", "") not in {n.replace("_", "") for n in names}:
                     nm = kw
             names.add(nm)
             params.append((nm, t))
